@@ -5,7 +5,7 @@ package c05
 // instead of suffered.
 
 import (
-	"context"
+	"bytes"
 	"encoding/json"
 	"fmt"
 	"math/big"
@@ -47,23 +47,55 @@ func childRun(c *hx.Ctx, in *blockInput) (timedOut bool, err error) {
 	if err := os.WriteFile(rf, b, 0o644); err != nil {
 		return false, err
 	}
-	ctx, cancel := context.WithTimeout(context.Background(), childLimit)
-	defer cancel()
-	cmd := exec.CommandContext(ctx, os.Args[0], "run", "-id", "C05", "-seed", strconv.FormatInt(c.Seed, 10), "-tier", "quick",
+	cmd := exec.Command(os.Args[0], "run", "-id", "C05", "-seed", strconv.FormatInt(c.Seed, 10), "-tier", "quick",
 		"-out", dir, "-replay", rf, "-repo", c.Repo)
 	cmd.Env = append(os.Environ(), "C05_CHILD=1")
-	out, err := cmd.CombinedOutput()
-	if ctx.Err() == context.DeadlineExceeded {
-		return true, nil
+	var out bytes.Buffer
+	cmd.Stdout, cmd.Stderr = &out, &out
+	if err := cmd.Start(); err != nil {
+		return false, err
 	}
-	if err != nil {
-		if len(out) > 400 {
-			out = out[len(out)-400:]
+	done := make(chan error, 1)
+	go func() { done <- cmd.Wait() }()
+	// The time limit applies to the block execution only: the child touches `child.ready` right
+	// before it hands the block to the handler (building its ledger can take many seconds on a
+	// loaded machine).
+	started := time.Now()
+	var readyAt time.Time
+	tick := time.NewTicker(50 * time.Millisecond)
+	defer tick.Stop()
+	for {
+		select {
+		case err := <-done:
+			if err != nil {
+				o := out.Bytes()
+				if len(o) > 400 {
+					o = o[len(o)-400:]
+				}
+				return false, fmt.Errorf("%v: %s", err, o)
+			}
+			return false, nil
+		case <-tick.C:
+			if readyAt.IsZero() {
+				if _, err := os.Stat(filepath.Join(dir, "child.ready")); err == nil {
+					readyAt = time.Now()
+				} else if time.Since(started) > childStartup {
+					cmd.Process.Kill()
+					<-done
+					return false, errSlowStart
+				}
+			} else if time.Since(readyAt) > childLimit {
+				cmd.Process.Kill()
+				<-done
+				return true, nil
+			}
 		}
-		return false, fmt.Errorf("%v: %s", err, out)
 	}
-	return false, nil
 }
+
+const childStartup = 5 * time.Minute
+
+var errSlowStart = fmt.Errorf("child did not reach the block execution within %v", childStartup)
 
 // guard runs the child for a wrap-suspect transaction and reports; ok=false: do not execute the
 // transaction in this process.
@@ -78,6 +110,9 @@ func (w *world) guard(tx *types.Transaction, old uint64, in *blockInput, label s
 		c.Fail("gas:available-gas-underflow", "a block holding a signed invoke transaction is executed in bounded time: the engine never gets more gas than GasLimit",
 			ti, fmt.Sprintf("ExecuteBlock did not return within %v (child process killed); with wrapping uint64 products availableGasLimit - codeLenGasLimit = %d > GasLimit %d",
 				childLimit, gas, tx.GasLimit), "the transaction is refused with the balance charged (a fee product overflows)")
+		return false
+	case err == errSlowStart:
+		c.Note("wrap-suspect child: " + err.Error() + " (machine overloaded?); block skipped")
 		return false
 	case err != nil:
 		c.Fail("child-crash", "the child process executing one transaction ends normally", ti, err.Error(), nil)
